@@ -6,7 +6,7 @@ import fam_sync as fs
 from checks_chain import merge
 from checks_misc import build_rig
 
-LIMITS = ("L1-announcement-not-followed", "L2-no-sync-candidate-left", "L3-lagging-sync-peer", "X1-inv-ignored")
+LIMITS = ("L1-announcement-not-followed", "L2-no-sync-candidate-left", "L3-lagging-sync-peer", "O1-orphaned-announcement", "X1-inv-ignored")
 
 ASSUME = ["legacy engine: real p2p.newServer + SyncManager + peer objects + SQL stack, offline, scripted protocol nodes on loopback TCP (127.0.0.x)",
           "behaviours are lock-step: one environment event, then the service is allowed to finish (ping/pong + manager + server barriers); free interleavings are explored on Sync.tla by TLC",
@@ -24,6 +24,7 @@ def families(tier, F):
         ("cp2f", fs.sync_consts(4, F=3, ForkAt=0, CpHs=(2, 4), Cap=3, MaxEnv=6, Findings=F, Emit="paths", Scenario="two checkpoints, a node on a branch contradicting the first")),
         ("forb", fs.sync_consts(3, F=2, ForkAt=1, CpHs=(1,), Cap=4, Forbid=(4,), MaxEnv=6, Findings=F, Emit="paths", Scenario="forbidden header on a fork branch")),
         ("cptip", fs.sync_consts(5, CpHs=(5,), Cap=2, MaxEnv=5, Findings=F, Emit="paths", Scenario="last checkpoint at the honest tip")),
+        ("rst", fs.sync_consts(5, CpHs=(2, 4), Cap=2, Peers=(1,), MaxConnects=3, MaxRestarts=1, MaxEnv=7, Findings=F, Emit="paths", Scenario="restart on a partially synced database, two checkpoints")),
     ]
     if not q:
         fam += [("long", fs.sync_consts(7, CpHs=(3, 5), Cap=2, MaxEnv=6, Findings=F, Emit="paths", Scenario="seven blocks, two checkpoints")),
